@@ -478,6 +478,11 @@ impl PhysicalPlanner {
     /// Pre-scan tables that are accessed multiple times and cache the results.
     fn prescan_shared_tables(&self, logical: &LogicalPlan) {
         use rayon::prelude::*;
+        // Verification switch: behave as for tables above the prescan size limit.
+        #[cfg(qe_verif)]
+        if crate::verif_hooks::switch("no_prescan") {
+            return;
+        }
 
         let mut table_scans: HashMap<String, Vec<Option<Vec<usize>>>> = HashMap::new();
         self.collect_scan_projections(logical, &mut table_scans);
@@ -1123,6 +1128,9 @@ impl PhysicalPlanner {
                                 > 400_000_000
                         })
                         .unwrap_or(false);
+                    // Verification switch: small test files take the streaming filtered scan.
+                    #[cfg(qe_verif)]
+                    let big = big || crate::verif_hooks::switch("stream_small");
                     if !big {
                         return false;
                     }
